@@ -94,12 +94,9 @@ def applyMove (p : Net Int) (mv : String) : List (Net Int × String) :=
   | none => [(p, "bad")]
 
 /-- the states a script starts from: `pre` — the context is cancelled, and the values of `presend` are sent, before the
-pump takes its first step (a caller that creates the pair under a done context and sends at once) -/
+pump takes its first step (`Unbound.preStart`, reachable by `Props/C08.preStart_reachable`) -/
 def startStates (cap : Nat) (pre : Bool) (presend : List Int) : List (Net Int) :=
-  let p0 : Net Int := Unbound.init cap
-  if !pre then [p0] else
-    let okOnly := fun (l : List (Net Int × Obs Int)) => (l.filter fun (_, o) => showObs o == "ok").map (·.1)
-    presend.foldl (fun sts v => sts.flatMap fun p => okOnly (envNext p (.send v))) (okOnly (envNext p0 .cancel))
+  if !pre then [Unbound.init cap] else Unbound.preStart cap presend
 
 def check (cap : Nat) (moves obs : List String) (pre : Bool := false) (presend : List Int := []) : String := Id.run do
   let start := startStates cap pre presend
